@@ -509,7 +509,7 @@ class MatrixProduct:
         else:
             # return singular value list
             # pad with zero
-            max_length = max(len(s) for s in s_list)
+            max_length = max((len(s) for s in s_list), default=0)
             s_array = np.array([np.pad(arr, (0, max_length - len(arr))) for arr in s_list])
             return self, s_array
 
